@@ -78,6 +78,10 @@ TARGETS = [
     ("pams/market.py", "Market", "remain_executable_orders"),
     ("pams/market.py", "Market", "_update_market_price"),
     ("pams/events/base.py", "EventHook", "__init__"),
+    ("pams/events/price_limit_rule.py", "PriceLimitRule", "setup"),
+    ("pams/events/trading_halt_rule.py", "TradingHaltRule", "setup"),
+    ("pams/events/order_mistake_shock.py", "OrderMistakeShock", "setup"),
+    ("pams/events/fundamental_price_shock.py", "FundamentalPriceShock", "setup"),
     ("pams/events/price_limit_rule.py", "PriceLimitRule", "hook_registration"),
     ("pams/events/trading_halt_rule.py", "TradingHaltRule", "hook_registration"),
     ("pams/events/order_mistake_shock.py", "OrderMistakeShock", "hook_registration"),
